@@ -6,11 +6,38 @@ placer::Placer::place (PlaceOrder), layout21raw::Library::from_gds (GdsDepOrder)
 A case is {"k": kind, "g": adjacency lists, "items": listing order, "aref": m, "fam": family, "iso": bool}.
 "iso" cases (cyclic / dangling inputs for the orderers without a pending set) are run one per process so
 that a stack overflow is attributed to the right case."""
-import itertools, json
+import itertools, json, os, re
 from vlib import *
 
 KIND = {"gen": 0, "tproto": 0, "place": 0, "raw": 1, "rawproto": 1, "tetris": 1, "gds": 2}
 CLASS_PREFIX = {"raw": "raw", "rawproto": "raw", "tetris": "tetris", "gds": "gds", "gen": "generic", "tproto": "tetris-cellorder", "place": "tetris-placeorder"}
+def repaired(path, struct_decl):
+    """Does the orderer declared by `struct_decl` in /repo/<path> carry a `pending` field (the repair proposed in the
+    C17 report)? Then the correspondence uses the model of the repaired code (Order/DepOrderFixed.v, kinds 3/4)."""
+    try:
+        src = open(os.path.join(REPO, path), encoding="utf8").read()
+    except OSError:
+        return False
+    i = src.find(struct_decl)
+    if i < 0:
+        return False
+    j = src.find("}", i)
+    return re.search(r"\bpending\s*:", src[i:j]) is not None
+
+def model_kinds():
+    k = dict(KIND)
+    v = {}
+    v["raw"] = repaired("layout21raw/src/data.rs", "pub struct DepOrder<")
+    v["tetris"] = repaired("layout21tetris/src/library.rs", "pub struct DepOrder<")
+    v["gds"] = repaired("layout21raw/src/gds.rs", "pub struct GdsDepOrder<")
+    if v["raw"]:
+        k["raw"] = k["rawproto"] = 3
+    if v["tetris"]:
+        k["tetris"] = 3
+    if v["gds"]:
+        k["gds"] = 4
+    return k, v
+
 HDR = ("From Coq Require Import ZArith NArith List.\nImport ListNotations.\n"
        "From L21 Require Import Order.DepOrder Order.DepOrderCheck.\nOpen Scope N_scope.\n")
 
@@ -271,6 +298,7 @@ def run_impl(cases):
     return res
 
 def evaluate(chk, cases, tag):
+    KIND = chk.c17_kinds
     res = run_impl(cases)
     codes = [None] * len(cases)
     # compact batches for the enumerated families, one expression per other case
@@ -293,10 +321,13 @@ def evaluate(chk, cases, tag):
             tup = clist([ctup(Raw(str(c["mask"])), nlist(c["items"]), cz(rc), nlist(out)) for (_, c, rc, out) in part])
             items.append(capp("c17_check_masks", cz(kind), Raw(str(n)), tup))
             owners.append([i for (i, _, _, _) in part])
-    for (i, c, rc, out) in singles:
-        items.append(clist([capp("c17_check", cz(KIND[c["k"]]), clist([nlist(r) for r in c["g"]]), nlist(c["items"]), cz(rc), nlist(out))]))
-        owners.append([i])
-    outs = coq_eval_lists(HDR, items, chk.rundir, tag, shard=10, timeout=3000)
+    G = 40
+    for a in range(0, len(singles), G):
+        part = singles[a:a + G]
+        items.append(clist([capp("c17_check", cz(KIND[c["k"]]), clist([nlist(r) for r in c["g"]]), nlist(c["items"]), cz(rc), nlist(out))
+                            for (_, c, rc, out) in part]))
+        owners.append([i for (i, _, _, _) in part])
+    outs = coq_eval_lists(HDR, items, chk.rundir, tag, shard=max(1, -(-len(items) // NCPU)), timeout=3000)
     for s, own in zip(outs, owners):
         vals = [int(v) for v in re.findall(r"-?\d+", s)]
         if len(vals) != len(own):
@@ -325,7 +356,9 @@ def size_key(c):
     return (len(c["g"]), sum(len(r) for r in c["g"]), len(c["items"]))
 
 def run(chk, replay=None):
-    chk.proof_leg(["Order/DepOrderCheck.vo"], "Properties/C17.v", ["Order/DepOrder_proofs.v"], "Properties.C17")
+    chk.proof_leg(["Order/DepOrderCheck.vo"], "Properties/C17.v", ["Order/DepOrder_proofs.v", "Order/DepOrderFixed_proofs.v"], "Properties.C17")
+    chk.c17_kinds, variant = model_kinds()
+    chk.cov["model_variant"] = {k: ("repaired (order_checked)" if v else "as found: no pending set (order_nopending)") for k, v in variant.items()}
     chk.assumptions += [
         "`process` of the generic helper is modelled as `push every dependency, propagate the error` (what PlaceOrder, CellOrder and the harness instance do); a user-supplied `process` doing anything else is outside the model",
         "hash sets are modelled as lists with membership/insert/remove (the orderers never iterate over them)",
